@@ -445,8 +445,9 @@ def run_check(prop, obligations, tier, level='model_checking', assumptions=None,
         'coverage': coverage, 'assumptions': assumptions or [],
         'wall_s': round(time.time() - t_start, 1), 'violations': len(violations),
     }
-    os.makedirs(os.path.join(VERIF, 'evidence'), exist_ok=True)
-    with open(os.path.join(VERIF, 'evidence', prop + '.json'), 'w') as f:
+    evdir = os.environ.get('VERIF_EVIDENCE_DIR', os.path.join(VERIF, 'evidence'))   # experiments only
+    os.makedirs(evdir, exist_ok=True)
+    with open(os.path.join(evdir, prop + '.json'), 'w') as f:
         json.dump(ev, f, indent=1, default=str)
     if violations:
         return 1
